@@ -27,6 +27,45 @@ impl Read for ShortReader<'_> {
     }
 }
 
+/// a reader that answers every other call with `ErrorKind::Interrupted` (a signal arrived) and
+/// otherwise hands out at most `k` bytes: `io::Read` callers must simply retry
+pub struct IntrReader<'a> {
+    pub data: &'a [u8],
+    pub k: usize,
+    pub tick: usize,
+}
+
+impl IntrReader<'_> {
+    fn interrupted(&mut self) -> bool {
+        self.tick += 1;
+        self.tick % 2 == 1
+    }
+}
+
+impl Read for IntrReader<'_> {
+    fn read(&mut self, buf: &mut [u8]) -> std::io::Result<usize> {
+        if self.interrupted() {
+            return Err(std::io::Error::new(std::io::ErrorKind::Interrupted, "interrupted"));
+        }
+        let n = self.data.len().min(buf.len()).min(self.k);
+        buf[..n].copy_from_slice(&self.data[..n]);
+        self.data = &self.data[n..];
+        Ok(n)
+    }
+}
+
+impl std::io::BufRead for IntrReader<'_> {
+    fn fill_buf(&mut self) -> std::io::Result<&[u8]> {
+        if self.interrupted() {
+            return Err(std::io::Error::new(std::io::ErrorKind::Interrupted, "interrupted"));
+        }
+        Ok(&self.data[..self.data.len().min(self.k)])
+    }
+    fn consume(&mut self, amt: usize) {
+        self.data = &self.data[amt..];
+    }
+}
+
 /// a writer that takes at most `k` bytes per call (what sockets and pipes do) and answers the
 /// first call with `Interrupted` when `intr` is set — both are within `io::Write`'s contract
 pub struct ShortWriter {
@@ -117,6 +156,8 @@ pub fn json_de_paths(text: &[u8]) -> Vec<(&'static str, DeResult)> {
         ("json:server_from_reader/1", wrap(cj::server_from_reader::<_, DynOut>(ShortReader { data: text, k: 1 }))),
         ("json:client_from_reader/2", wrap(cj::client_from_reader::<_, DynOut>(ShortReader { data: text, k: 2 }))),
         ("json:server_from_reader/2", wrap(cj::server_from_reader::<_, DynOut>(ShortReader { data: text, k: 2 }))),
+        ("json:client_from_reader/interrupted", wrap(cj::client_from_reader::<_, DynOut>(IntrReader { data: text, k: 3, tick: 0 }))),
+        ("json:server_from_reader/interrupted", wrap(cj::server_from_reader::<_, DynOut>(IntrReader { data: text, k: 3, tick: 0 }))),
         // the deserializer structs driven by hand (deserialize, then end())
         ("json:ClientDeserializer::from_str", direct(cj::ClientDeserializer::from_str(s), |d| DynOut::deserialize(d), |d| d.end())),
         ("json:ClientDeserializer::from_slice", direct(cj::ClientDeserializer::from_slice(text), |d| DynOut::deserialize(d), |d| d.end())),
@@ -142,6 +183,8 @@ pub fn smile_de_paths(bytes: &[u8]) -> Vec<(&'static str, DeResult)> {
         ("smile:server_from_reader/1", wrap(cs::server_from_reader::<_, DynOut>(ShortReader { data: bytes, k: 1 }))),
         ("smile:client_from_reader/2", wrap(cs::client_from_reader::<_, DynOut>(ShortReader { data: bytes, k: 2 }))),
         ("smile:server_from_reader/2", wrap(cs::server_from_reader::<_, DynOut>(ShortReader { data: bytes, k: 2 }))),
+        // (an `Interrupted` answer from a BufRead is not retried by serde_smile's own reader - the
+        // dependency's behaviour, not conjure-serde's; only the JSON readers get IntrReader)
         ("smile:ClientDeserializer::from_slice", direct(cs::ClientDeserializer::from_slice(bytes), |d| DynOut::deserialize(d), |d| d.end())),
         ("smile:ServerDeserializer::from_slice", direct(cs::ServerDeserializer::from_slice(bytes), |d| DynOut::deserialize(d), |d| d.end())),
         ("smile:ClientDeserializer::from_reader", direct(cs::ClientDeserializer::from_reader(ShortReader { data: bytes, k: 3 }), |d| DynOut::deserialize(d), |d| d.end())),
